@@ -61,14 +61,17 @@ def gen(tier, rng):
         sw, sh, dw, dh = [rng.randint(1, 40) for _ in range(4)]
         cx, cy = rng.choice(CENT), rng.choice(CENT)
         alg = rng.choice([("nearest", None), ("conv", "Bilinear"), ("conv", "Lanczos3"), ("ss", "Box")])
-        opt = {"alg": alg[0], "fit": [{"n": cx[0], "q": cx[1]}, {"n": cy[0], "q": cy[1]}]}
+        use_default = i % 5 == 0         # fit_into_destination(None): documented default centering (0.5, 0.5)
+        if use_default:
+            cx, cy = (1, 2), (1, 2)
+        opt = {"alg": alg[0], "fit": None if use_default else [{"n": cx[0], "q": cx[1]}, {"n": cy[0], "q": cy[1]}]}
         if alg[1]:
             opt["filter"] = alg[1]
         pt = rng.choice(["U8", "U8x4", "U16x3", "F32"])
         cases.append({"op": "resize", "cpu": rng.choice(["none", "sse4", "avx2"]),
                       "src": {"pt": pt, "w": sw, "h": sh, "c": {"g": "rand", "seed": i}},
-                      "dst": {"pt": pt, "w": dw, "h": dh}, "opt": opt, "log": [],
-                      "echo": {"sw": sw, "sh": sh, "dw": dw, "dh": dh}})
+                      "dst": {"pt": pt, "w": dw, "h": dh}, "opt": opt, "log": ["hooks"],
+                      "echo": {"sw": sw, "sh": sh, "dw": dw, "dh": dh, "cx": list(cx), "cy": list(cy)}})
     return cases
 
 
@@ -88,6 +91,18 @@ def run(res, tier, seed):
     binary = vlib.build_harness("release")
     wd = vlib.workdir("c15")
     recs, tpath = vlib.run_harness(binary, cases, wd)
+    # the crop box a resize with fit_into_destination really used (hook crop_box, exact f64 values) is judged like a direct call
+    import json
+    extra = []
+    for c, r in zip(cases, recs):
+        if c["op"] == "resize":
+            boxes = [h["d"] for h in r.get("hooks", []) if h["k"] == "crop_box"]
+            r.pop("hooks", None)
+            if boxes:
+                extra.append({"id": c["id"], "op": "fitcrop", "ret": "ok", "box": boxes[0], "echo": c["echo"]})
+    with open(tpath, "w") as f:
+        for r in recs + extra:
+            f.write(json.dumps(r, separators=(",", ":")) + "\n")
     tr = vlib.run_tlc_trace("TraceC15", tpath)
     res.add_trace(tr, len(cases), "TraceC15")
     rec = {r_["id"]: r_ for r_ in recs}
